@@ -2672,7 +2672,6 @@ func (c *Ctx) commentSource(deep string) string {
 	return rest[:j]
 }
 
-
 // ---------------------------------------------------------------------------------------------
 // P-FILERENDER-ORDER on paths of File.Render
 
